@@ -77,6 +77,10 @@ const EXTRA_TOKENS: &[&[u8]] = &[
     b"+y\n",
     b"-y\n",
     b"+z",
+    // an empty line that is the unterminated last line of its side
+    b"+\n\\ No newline at end of file\n",
+    b"-\n\\ No newline at end of file\n",
+    b" \n\\ No newline at end of file\n",
 ];
 
 impl Prop for C12 {
@@ -85,7 +89,7 @@ impl Prop for C12 {
         "C12"
     }
     fn rule(&self) -> String {
-        "inputs the parser accepts among: patch files of generated workspaces (every header dialect, garbage between file patches, empty sides, lines without newline in any position, git mode/rename/create/delete metadata, hunkless git entries, -R forms, names needing C quotes), sequences of 1..30 syntactically meaningful lines (token soups incl. copy/rename/mode lines and zero-count hunks), and the repository's testdata patches with line-level mutations. Oracle (round trip): p1 = parse(x), w1 = write(p1); parse(w1) must succeed and describe the same file patches - kind, old/new name, rename flag, modes, hashes, per hunk the old-side and new-side line sequences (incl. missing final newlines) and both start lines - and write(parse(w1)) == w1 byte for byte. non-trivial = p1 has >=1 file patch; distinct = distinct input".into()
+        "inputs the parser accepts among: patch files of generated workspaces (every header dialect, garbage between file patches, empty sides, lines without newline in any position, git mode/rename/create/delete metadata, hunkless git entries, -R forms, names needing C quotes), sequences of 1..30 syntactically meaningful lines (token soups incl. copy/rename/mode lines and zero-count hunks), single hunks rewriting up to 700 lines by up to 700 others, and the repository's testdata patches with line-level mutations. Oracle (round trip): p1 = parse(x), w1 = write(p1); parse(w1) must succeed and describe the same file patches - kind, old/new name, rename flag, modes, hashes, per hunk the old-side and new-side line sequences (incl. missing final newlines) and both start lines - and write(parse(w1)) == w1 byte for byte. non-trivial = p1 has >=1 file patch; distinct = distinct input".into()
     }
     fn assumptions(&self) -> Vec<String> {
         vec!["the context/changed classification of individual lines and the function text after @@ are not compared (the statement speaks of the two line sequences)".into()]
